@@ -81,7 +81,7 @@ type WOpts struct {
 }
 
 var WireFeatures = []string{"bind", "bind-value-impl", "value", "ivalue", "struct", "struct-fields", "struct-value-consumer", "fieldsof", "fieldsof-value", "fieldsof-ptr",
-	"sets", "nested-sets", "inline-sets", "inline-sets-deep", "struct-unexported-field", "ext-alias-suffix", "ext-name-differs-from-path", "composite", "same-name-packages-across-files", "fieldsof-twice", "second-injector", "twin-types-in-same-named-packages", "value-ext-var", "err", "args", "unused-arg", "multi-file", "ext", "bind-foreign-ctor", "bind-split-set", "multi-result"}
+	"sets", "nested-sets", "inline-sets", "inline-sets-deep", "struct-unexported-field", "ext-alias-suffix", "ext-name-differs-from-path", "composite", "same-name-packages-across-files", "fieldsof-twice", "second-injector", "twin-types-in-same-named-packages", "value-ext-var", "struct-in-ext-package", "fieldsof-in-ext-package", "err", "args", "unused-arg", "multi-file", "ext", "bind-foreign-ctor", "bind-split-set", "multi-result"}
 
 func WAllowAll(except ...string) map[string]bool {
 	m := map[string]bool{}
@@ -490,14 +490,34 @@ func (g *wgen) genStruct() {
 	s := Type{Kind: KStruct, Name: g.name("S"), NoHash: true}
 	var req []TypeID
 	seen := map[TypeID]bool{}
+	// the target struct may be declared in an external package: then its (exported) fields have
+	// plain named types of that package
+	extPkg := ""
+	inExt := func(t TypeID, key string) bool {
+		tt := g.c.T(t)
+		return (tt.Kind == KStruct || tt.Kind == KNBasic) && tt.Pkg == key && len(tt.Fields) == 0 && !tt.NoHash
+	}
+	if len(g.c.Exts) > 0 && g.o.Allow["ext"] && rapid.Bool().Draw(g.rt, "struct-in-ext") {
+		key := g.c.Exts[rapid.IntRange(0, len(g.c.Exts)-1).Draw(g.rt, "struct-ext")].Key
+		for _, t := range g.supplied {
+			if inExt(t, key) {
+				extPkg = key
+			}
+		}
+		if extPkg != "" {
+			s.Pkg = extPkg
+			s.Name = g.extTypeName(extPkg)
+			g.w.AddFeature("struct-in-ext-package")
+		}
+	}
 	for i := 0; i < nf; i++ {
-		t, ok := g.pick("sfield", func(t TypeID) bool { return !seen[t] })
+		t, ok := g.pick("sfield", func(t TypeID) bool { return !seen[t] && (extPkg == "" || inExt(t, extPkg)) })
 		if !ok {
 			break
 		}
 		seen[t] = true
 		fname := "F" + string(rune('A'+i))
-		if g.want("struct-unexported-field", "unexpfield", 30) {
+		if extPkg == "" && g.want("struct-unexported-field", "unexpfield", 30) {
 			fname = "f" + string(rune('a'+i)) // same-package unexported field: wire injects it too
 		}
 		s.Fields = append(s.Fields, Field{Name: fname, Type: t})
@@ -543,7 +563,26 @@ func (g *wgen) genFieldsOf() {
 	nf := rapid.IntRange(1, 3).Draw(g.rt, "nff")
 	s := Type{Kind: KStruct, Name: g.name("C")}
 	var ftypes []TypeID
+	extPkg := ""
+	if g.o.Allow["ext"] && rapid.IntRange(0, 3).Draw(g.rt, "fieldsof-in-ext") == 3 {
+		// the struct, its field types and its provider all live in an external package
+		extPkg = g.extKey()
+		s.Pkg = extPkg
+		s.Name = g.extTypeName(extPkg)
+		g.w.AddFeature("fieldsof-in-ext-package")
+	}
 	for i := 0; i < nf; i++ {
+		if extPkg != "" {
+			var ft TypeID
+			if rapid.Bool().Draw(g.rt, "ffext-kind") {
+				ft = g.addType(Type{Kind: KStruct, Name: g.extTypeName(extPkg), Pkg: extPkg})
+			} else {
+				ft = g.addType(Type{Kind: KNBasic, Name: g.extTypeName(extPkg), Basic: "int", Pkg: extPkg})
+			}
+			s.Fields = append(s.Fields, Field{Name: "F" + string(rune('A'+i)), Type: ft})
+			ftypes = append(ftypes, ft)
+			continue
+		}
 		ft := g.freshType("")
 		s.Fields = append(s.Fields, Field{Name: "F" + string(rune('A'+i)), Type: ft})
 		ftypes = append(ftypes, ft)
@@ -566,7 +605,13 @@ func (g *wgen) genFieldsOf() {
 		}
 	}
 	// source of the struct: a provider, or an injector argument
-	if rapid.IntRange(0, 9).Draw(g.rt, "ffsrc") < 7 || !g.o.Allow["args"] {
+	if extPkg != "" {
+		g.pid++
+		p := Prov{ID: g.pid, Form: "ext", Pkg: extPkg, Name: "New" + s.Name, Results: []TypeID{res}}
+		g.used[extPkg+"."+p.Name] = true
+		g.c.Provs = append(g.c.Provs, p)
+		g.addUnit(WElem{Kind: "prov", Prov: p.ID}, nil, []TypeID{res})
+	} else if rapid.IntRange(0, 9).Draw(g.rt, "ffsrc") < 7 || !g.o.Allow["args"] {
 		g.pid++
 		p := Prov{ID: g.pid, Form: "func", Name: "New" + s.Name, Results: []TypeID{res}}
 		g.used[p.Name] = true
@@ -680,12 +725,20 @@ func (g *wgen) assemble() {
 	// two different packages called util: file 1 imports a/util, file 2 imports b/util, both as
 	// plain `util`; the providers of b/util all live in one set declared in file 2
 	sameName := false
-	usesExt2 := func(u int) bool {
-		return g.units[u].Kind == "prov" && g.c.ProvByID(g.units[u].Prov).Pkg == "ext2" || g.units[u].Kind == "value" && g.units[u].VarPkg == "ext2"
+	mentions := func(u int, key string) bool {
+		e := &g.units[u]
+		switch e.Kind {
+		case "prov":
+			return g.c.ProvByID(e.Prov).Pkg == key
+		case "value":
+			return e.VarPkg == key
+		case "struct", "fieldsof":
+			return g.c.T(e.Struct).Pkg == key
+		}
+		return false
 	}
-	usesExt1 := func(u int) bool {
-		return g.units[u].Kind == "prov" && g.c.ProvByID(g.units[u].Prov).Pkg == "ext" || g.units[u].Kind == "value" && g.units[u].VarPkg == "ext"
-	}
+	usesExt2 := func(u int) bool { return mentions(u, "ext2") }
+	usesExt1 := func(u int) bool { return mentions(u, "ext") }
 	if g.c.Ext("ext2") != nil && g.o.MaxFiles >= 2 && len(g.twinUnits) == 0 {
 		for u := range g.units {
 			if usesExt2(u) {
